@@ -5,6 +5,7 @@ package traefikoidc_test
 import (
 	"fmt"
 	mrand "math/rand"
+	"net/http"
 	"net/http/httptest"
 	"net/url"
 	"strings"
@@ -738,7 +739,8 @@ func (w *world) randomReqSpec0(rng *mrand.Rand, prop string) reqSpec {
 		rs.xfHost = []string{"app test", "app.test%zz", "app.test:http", "[::1", "app.test, proxy.internal", "a\"b.test", ""}[rng.Intn(7)]
 	}
 	if prop == "C16" && rng.Intn(2) == 0 {
-		rs.accept = []string{"", "text/html", "application/json", "<verif-marker>"}[rng.Intn(4)]
+		rs.accept = []string{"", "text/html", "application/json", "<verif-marker>", "text/html;profile=\"application/json\"", "text/html; q=0.9; x=json", "application/xhtml+xml;profile=application/json",
+			"application/problem+json", "application/json; charset=utf-8", "text/html, application/json;q=0.1", "application/vnd.api+json", "text/plain;format=application/json", "image/svg+xml;x=application/json", "*/*;json"}[rng.Intn(14)]
 		if rng.Intn(3) == 0 {
 			rs.xfHost = "evil\"<verif-marker>.test"
 		}
@@ -773,9 +775,98 @@ func sortStrings(s []string) {
 	}
 }
 
+// futureJars: session cookies of this deployment (same key) whose creation time lies ahead of the clock of the instance that will
+// receive them - what a replica with a fast clock, or a host before a backwards clock step, hands to a browser.  They are made in
+// a bubble of their own whose clock is advanced first (only a SessionManager lives there: no instance, no ticker).
+func futureJars(t *testing.T) []jar {
+	var out []jar
+	synctest.Test(t, func(t *testing.T) {
+		for _, ahead := range []time.Duration{3 * time.Minute, 3 * time.Hour, 72 * time.Hour} {
+			time.Sleep(ahead)
+			sm, err := oidc.NewSessionManager(sessKey, false, oidc.NewLogger("none"))
+			if err != nil {
+				return
+			}
+			for _, withToken := range []bool{false, true} {
+				r := httptest.NewRequest("GET", "http://app.test/", nil)
+				sd, err := sm.GetSession(r)
+				if err != nil {
+					continue
+				}
+				sd.SetAuthenticated(true)
+				sd.SetEmail("user@example.com")
+				if withToken {
+					cl := stdClaims(time.Now(), time.Hour)
+					cl["email"] = "user@example.com"
+					sd.SetAccessToken(stdToken(keys()["p256a"], cl))
+					sd.SetRefreshToken("rt-from-the-fast-replica")
+				}
+				rec := httptest.NewRecorder()
+				if sd.Save(r, rec) == nil {
+					j := jar{}
+					for _, c := range (&http.Response{Header: rec.Header()}).Cookies() {
+						j[c.Name] = c.Value
+					}
+					out = append(out, j)
+				}
+			}
+		}
+	})
+	return out
+}
+
+// futureDated (C17, judged by the oracles only): requests carrying a future-dated jar are answered below 500 on every path, and a
+// login from that jar ends in a session that is forwarded
+func futureDated(fj jar, n int) {
+	p := newProvider(keys()["p256a"])
+	d := &down{}
+	inst := newInstance(p, d, nil)
+	j := jar{}
+	for k, v := range fj {
+		j[k] = v
+	}
+	rp := M{"family": "handler", "scenario": "future-dated session cookies", "jar": n}
+	for _, target := range []string{"/page", "/cb", "/cb?state=s&code=c", "/cb/logout", "/page"} {
+		req := httptest.NewRequest("GET", "http://app.test"+target, nil)
+		j.addTo(req)
+		rec := httptest.NewRecorder()
+		func() {
+			defer func() {
+				if pv := recover(); pv != nil {
+					T.oracle("C17", "the handler crashed on session cookies created ahead of its clock", M{"target": target, "panic": fmt.Sprint(pv)}, rp)
+				}
+			}()
+			p.onExchange = func(form url.Values) tokenAnswer { return tokenAnswer{kind: "4xx", desc: "unknown code"} }
+			inst.ServeHTTP(rec, req)
+		}()
+		if rec.Code >= 500 {
+			T.oracle("C17", "5xx answer to a request carrying session cookies created ahead of the instance's clock", M{"target": target, "status": rec.Code}, rp)
+		}
+		if target == "/page" {
+			j.apply(rec.Header())
+		}
+	}
+	if !simpleLogin(inst, p, j, "user@example.com", time.Hour) {
+		T.oracle("C17", "a login from a jar with future-dated session cookies does not complete", nil, rp)
+		return
+	}
+	before := d.calls
+	req := httptest.NewRequest("GET", "http://app.test/page", nil)
+	j.addTo(req)
+	inst.ServeHTTP(httptest.NewRecorder(), req)
+	if d.calls != before+1 {
+		T.oracle("C17", "after a completed login from a jar with future-dated cookies the next request is not forwarded", nil, rp)
+	}
+	T.stat("handler.future-dated-jars")
+}
+
 func familyHandler(t *testing.T) {
 	rng := T.rng
 	prop := T.prop
+	var fjars []jar
+	if prop == "C17" {
+		fjars = futureJars(t)
+	}
 	synctest.Test(t, func(t *testing.T) {
 		defer guard()
 		if rp := loadReplay(); rp != nil {
@@ -788,6 +879,15 @@ func familyHandler(t *testing.T) {
 		// (instances cannot be shut down — their ticker goroutines have no stop channel — so every scenario leaves timers behind in
 		// the bubble and the cost of virtual time grows with the number of scenarios per process: the thorough tier uses more
 		// processes (seeds) of moderate length rather than a few long ones)
+		if rp := loadReplay(); rp == nil || rp["scenario"] == "future-dated session cookies" { // (first thing in the bubble: its clock still stands where the other bubble's clock started)
+			for i, fj := range fjars {
+				futureDated(fj, i)
+			}
+			if rp != nil {
+				T.finish()
+				return
+			}
+		}
 		nScen := T.size(70, 160)
 		for sc := 0; sc < nScen; sc++ {
 			neighbourFirst := prop == "C15" && sc%8 == 5
